@@ -182,4 +182,17 @@ end
 def unjson (fp : FloatParse) (text : Bytes) : Option V :=
   (Rfc8259.parse text).bind (ofJson fp false)
 
+/-! ### msgpack: JSON text → Go value → msgpack (the codec itself is a parameter) -/
+
+/-- A msgpack codec over decoded JSON data (what `GoToMsgpack` / `MsgpackToGo` do with the
+Go value that `JsonToGo` produced). -/
+structure MsgpackCodec where
+  enc : JValue → Bytes
+  dec : Bytes → Option JValue
+
+/-- `SexpToMsgpack`: JSON text → Go value → msgpack -/
+def msgpack (c : MsgpackCodec) (v : V) : Option Bytes := (Rfc8259.parse (sexpToJson v)).map c.enc
+/-- `MsgpackToSexp` -/
+def unmsgpack (c : MsgpackCodec) (fp : FloatParse) (b : Bytes) : Option V := (c.dec b).bind (ofJson fp false)
+
 end ZygoVerif.Json
